@@ -35,6 +35,12 @@ def q_specs():
     Q["schedule"] = A.to_spec(A._b(crop="maize.2", win="w2", word="dry", irr="sched", iwc="WP"))
     s = A.to_spec(A._b(crop="rice.2", win="w1", word="wet", soil="Paddy", field="bunds50w20", irr="net80", iwc="SAT"))
     Q["paddy_bunds_net"] = s
+    # two thermal-time configurations with the SAME window and planting date but different weather, started on the planting date
+    for nm, word in (("thermal_hot", "hot"), ("thermal_warm", "warm")):
+        s = A.to_spec(A._b(crop="maize.2", win="w1s", word=word))
+        s["crop"] = {"name": "MaizeGDD", "planting": "05/01", "harvest": "08/30", "scale": None, "gddscale": 0.15, "kw": {}}
+        s["end"] = "2002/09/15"
+        Q[nm] = s
     return Q
 
 
@@ -170,14 +176,14 @@ def run(scn):
 
 def describe(tier):
     return {
-        "rule": "a set Q of 8 configurations touching every process-global named in the anchors (catalogue crop, keyword overrides, default thickness list, "
-                "profile deepening, default InitialWaterContent/GroundWater lists, water table, constant CO2, dated schedule, bunds+net irrigation); each alone in a "
+        "rule": "a set Q of 10 configurations touching every process-global named in the anchors (catalogue crop, keyword overrides, default thickness list, "
+                "profile deepening, default InitialWaterContent/GroundWater lists, water table, constant CO2, dated schedule, bunds+net irrigation, two thermal-time crops with identical dates but different weather); each alone in a "
                 "fresh interpreter under PYTHONHASHSEED {0,1,4242,VERIF_SEED}; ALL ordered pairs (run A, run B) and (construct A, run B)"
                 + ("" if tier == "quick" else "; ALL ordered triples (run/init/run)") + "; two live instances of every ordered pair stepped ALTERNATELY in one process (chunk sizes 1/1" + ("" if tier == "quick" else ", 3/2, 7/1") + "); the batch under pool sizes {1,4" + ("" if tier == "quick" else ",16") + "}. Oracle: SHA-256 of "
                 "the raw bytes of all four tables = digest of the configuration run alone; a global-state monitor hashes every non-callable module-level object, "
                 "class attribute and default-argument tuple of aquacrop.* and numpy.geterr() after every operation: it must never change (fix-point => isolation for "
                 "histories of any length). Every sequence runs in its own fresh interpreter.",
-        "bound": "operation sequences of length <= " + ("2" if tier == "quick" else "3") + " over |Q| = 8, complete",
+        "bound": "operation sequences of length <= " + ("2" if tier == "quick" else "3") + " over |Q| = 10, complete",
         "exhaustive": True,
         "witnesses": WITNESSES,
         "assumptions": ["bitwise equality on one interpreter/numpy build", "state held outside aquacrop.* modules (pandas/numpy internals) is observed only through its effect on the tables"],
